@@ -213,6 +213,18 @@ def Message.base (m : Message) (L a b : Nat) : Except RErr RState :=
   | .error e => .error e
   | .ok r => r.reserve b
 
+/-- the two `reserve` calls alone -/
+def Message.base0 (m : Message) (L a b : Nat) : Except RErr RState :=
+  match (RState.init m.id m.flags L m.origin).reserve a with
+  | .error e => .error e
+  | .ok r => r.reserve b
+
+theorem base_ok {m : Message} {L a b : Nat} {r : RState} (h : m.base L a b = .ok r) : m.base0 L a b = .ok r := by
+  by_cases hfit : a + b > L
+  · simp [Message.base, hfit] at h
+  · simp only [Message.base, hfit, if_false] at h
+    exact h
+
 theorem renderSections_eq (m : Message) (L : Nat) (pt : Bool) (a b : Nat) :
     m.renderSections L pt a b =
       match m.base L a b with
@@ -254,7 +266,8 @@ theorem toWire_eq (m : Message) (lim : Nat) (pt : Bool) :
 
 theorem base_inv (m : Message) (L a b : Nat) (r : RState) (h : m.base L a b = .ok r) :
     RInv r ∧ r.flags = m.flags ∧ r.sec = 0 := by
-  unfold Message.base at h
+  have h := base_ok h
+  unfold Message.base0 at h
   split at h
   · simp at h
   · rename_i r1 h1
@@ -270,7 +283,11 @@ theorem base_cut (m : Message) (k : Nat) (tc : Bool) (L a b : Nat) :
       match m.base L a b with
       | .ok r => .ok { r with flags := (m.cut k tc).flags }
       | .error e => .error e := by
-  unfold Message.base RState.reserve RState.init
+  unfold Message.base
+  by_cases hfit : a + b > L
+  · simp [hfit]
+  simp only [hfit, if_false]
+  unfold RState.reserve RState.init
   simp only [Message.cut]
   by_cases h1 : a > L
   · simp [h1]
